@@ -244,7 +244,7 @@ def fam_capacity(cfg, tier, rng):
     # a storage of B bytes holds is asked for - through reserve (amortised: doubles on the heap), reserve_exact, and a
     # push into the full storage after the typed view filled it
     if cfg["sz"] > 0:
-        scales = [2**14, 2**17, 2**20, 3 * 2**19, 2**21] if tier == "quick" else [2**14, 2**17, 2**20, 3 * 2**19, 2**21, 2**22, 2**23]
+        scales = [2**14, 2**17, 2**20, 3 * 2**19, 2**21] if tier == "quick" else [2**14, 2**17, 2**20, 3 * 2**19, 2**21, 2**22]
         for B in scales:
             cap0 = (B + cfg["sz"] - 1) // cfg["sz"]
             for call in ("reserve", "reserve_exact", "treserve"):
